@@ -123,7 +123,7 @@ pub fn worker(prop: &str, tier: Tier, master: u64, start: u64, end: u64, deadlin
             break;
         }
         let seed = run_seed(master, prop, i);
-        let scn = props::generate(prop, seed, tier);
+        let scn = props::generate(prop, seed, tier, i);
         let vs = props::check(&scn, &mut stats);
         runs += 1;
         for v in vs {
@@ -350,7 +350,7 @@ pub fn check(opts: &CheckOpts) -> i32 {
         // a run that kills the worker even alone: the analyzer took the process down (stack overflow, abort)
         new_violations += 1;
         let seed = run_seed(opts.master, &opts.prop, *i);
-        let scn = props::generate(&opts.prop, seed, opts.tier);
+        let scn = props::generate(&opts.prop, seed, opts.tier, *i);
         let path = rdir.join(format!("process-death-{i}.json"));
         let rf = ReplayFile {
             property: opts.prop.clone(),
